@@ -27,6 +27,7 @@
 #include <thread>
 #include <type_traits>
 #include <unordered_map>
+#include <unistd.h>
 #include <vector>
 
 // read-only access to private state of the engine classes (no repo change needed)
@@ -252,7 +253,7 @@ static std::string state_line(Ctx& c)
     os << "|key=" << hex(p.hash()) << "|pkey=" << hex(p.pawn_hash());
     {
         Position fresh(f);
-        os << "|fkey=" << hex(fresh.hash()) << "|fpkey=" << hex(fresh.pawn_hash());
+        os << "|fkey=" << hex(fresh.hash()) << "|fpkey=" << hex(fresh.pawn_hash()) << "|ffen=" << fresh.fen();
     }
     os << "|chk=" << p.is_in_check(p.color()) << "|mate=" << p.is_checkmate() << "|stale=" << p.is_stalemate()
        << "|rep=" << p.is_repeated() << "|three=" << p.threefold_repetition() << "|r50=" << p.rule50()
@@ -361,6 +362,21 @@ int main(int argc, char** argv)
             SIDE_HASH = splitmix64(s);
             for (int f = 0; f < 8; ++f) ENPASSANT_HASH[f] = splitmix64(s);
             std::cout << "ztab ok\n";
+        }
+        else if (op == "zcheck")
+        {
+            // the engine's OWN tables (as zobrist::init() left them): every cell a key can XOR in must be
+            // non-zero and pairwise distinct, otherwise different positions collide systematically
+            std::vector<uint64_t> v;
+            for (int pc = 1; pc < 13; ++pc) for (int sq = 0; sq < 64; ++sq) v.push_back(PIECE_HASH[pc][sq]);
+            for (int i = 0; i < 16; ++i) v.push_back(CASTLING_HASH[i]);
+            v.push_back(SIDE_HASH);
+            for (int f = 0; f < 8; ++f) v.push_back(ENPASSANT_HASH[f]);
+            bool nonzero = std::all_of(v.begin(), v.end(), [](uint64_t x) { return x != 0; });
+            size_t n = v.size();
+            std::sort(v.begin(), v.end());
+            bool distinct = std::adjacent_find(v.begin(), v.end()) == v.end();
+            std::cout << "zcheck distinct=" << distinct << " nonzero=" << nonzero << " n=" << n << "\n";
         }
         else if (op == "pos")
         {
